@@ -112,7 +112,7 @@ theorem highestHolding_unique (c : Cfg) (p : Pt) (l : Nat)
 
 theorem determineLevel_eq_specLevel (c : Cfg) (p : Pt) (cur : Nat) : determineLevel c p cur = specLevel c p cur := by
   unfold determineLevel specLevel
-  simp only [critical]
+  simp only [critical, show Gen.levelSearchRecognised = true from rfl, Bool.not_true, Bool.false_eq_true, if_false]
   have hmax := highestHolding_max c p
   cases hup : findFirstMatchLevel c p (cur - 1) 3 with
   | some l =>
